@@ -454,6 +454,22 @@ PROPS['C11'] = dict(
     explanation='Byte identity of a clone needs the same fields, the same values and the same order; the first two are per-field obligations, the third is the order obligation that fails.',
 )
 
+PROPS['C25'] = dict(
+    units=['k_wlock'], level='proof', design_ref='13/C25',
+    technique='CBMC harness contracts on FIXWriter::write(Message*, bool), write(Message&) and write_batch (clang AST of include/fix8/connection.hpp) with the scoped spin-lock guard lowered to ghost '
+              '"acquired until the function returns" state: the LOCK DISCIPLINE the writer relies on; interleavings themselves are not explored',
+    text='Lock discipline (proved-modular, every process model, destroy flag, send outcome; write_batch for batches of two): in the threaded and coroutine models every call of Session::send_process '
+         'made by the writer happens while the writer\'s own spin lock is held, a whole batch is sent under ONE hold of it, in order, with exactly the last message marked end-of-batch, and each '
+         'message is sent exactly once; in the pipelined model these functions never call send_process -- they hand every message to the queue, whose single consumer (FIXWriter::execute) is the '
+         'only caller -- and the direct write(Message&) is refused. Under the ASSUMED correctness of f8_spin_lock (mutual exclusion) and of the queue (C30) the calls of send_process are therefore '
+         'serialised for any number of sending threads, and C16 / C17\'s per-call contracts then give unique consecutive numbers and faithful stores. '
+         'NOT decided: the interleavings themselves, data races on other session state (e.g. the timestamps read by the supervision timer), the spin lock and the queue, FIXWriter::execute.',
+    note='sequential proof of a locking discipline, not an exploration of schedules; "no data race occurs" is NOT decided',
+    trusted_base=COMMON_TRUST,
+    explanation='Mutual exclusion of the critical section reduces the concurrent property to the sequential per-call contract of send_process; what has to be shown about the code is that every path '
+                'into the critical section takes the lock, which is a per-function postcondition over ghost lock state.',
+)
+
 # ---------------------------------------------------------------- native replayers
 import os
 import re
@@ -772,7 +788,6 @@ replayers['k_date'] = _replay_k_date
 NOT_APPLICABLE = {
     'C13': 'quantifies over programs (schemas) and the behaviour of generated C++: no function contract within CBMC reach expresses "the emitted program implements the schema"',
     'C21': 'whole-system history over two processes, a lossy network, file persistence and restarts: not expressible as function contracts; its per-session steps are C16-C20/C26',
-    'C25': 'quantifies over thread interleavings; the contract tooling here is sequential (atomics are plain variables)',
     'C30': 'all interleavings of a lock-free CAS protocol in C++ templates: outside sequential contracts',
     'C32': 'istream/regex/std::map-driven recursive parser: every step is an opaque library call, no C-expressible core with a tree-equality contract',
 }
